@@ -250,6 +250,20 @@ class Rec:
                 rs = set(r)
                 follows = [k for k in r if self.follows(k)]
                 if not follows:
+                    # descent through an owned value (a Primitive, a typed model) is as deep as the value, and the parser bounds that.  A cycle
+                    # of functions that work on the INPUT (a lexer, a byte slice) re-enters once per token or byte: its depth grows with the
+                    # file, so it needs a budget like any other (those with one were cut above)
+                    cursor = []
+                    for k in r:
+                        bk = self.f.bodies[I.nodes[k]["body"]]
+                        for p_ in range(1, bk["argc"] + 1):
+                            ty = bk["locals"][p_]["s"]
+                            if "Lexer" in ty or ty in ("&[u8]", "&mut &[u8]", "&mut [u8]"):
+                                cursor.append("%s (%s)" % (bk["id"], ty))
+                    if cursor:
+                        findings.append({"nodes": sorted(r), "why": "recursion over the input without a depth budget: %s re-enter(s) once per token / byte, the depth grows with "
+                                         "the file" % ", ".join(sorted(set(cursor))[:3])})
+                        continue
                     accepted.append((sorted(r), "owned descent: no body on the cycle follows a reference"))
                     continue
                 if len(r) == 1:
